@@ -3,7 +3,7 @@ Decided statically: L-rc for every k-mer type (base j <- complement of base K-1-
 follow from the lane map), the canonical-form decision tables (min_rc, min_rc_flip, is_palindrome over ord(self, rc)),
 Lmer::rc for every capacity and length, the 8-bit lemmas for Exts::complement/reverse/rc and the 2-bit complement,
 DnaString::rc's element map, and the DnaStringSlice remap tables (get / get_kmer / slice / rc under the is_rc flag)."""
-from .. import lemmas, structural, dt
+from .. import lemmas, structural, dt, dt_seq
 from . import common
 
 THOROUGH_FACTS = True
@@ -17,5 +17,5 @@ def run(F, rep):
     common.run_kmer_lemmas(F, rep, {"rc", "canon"})
     lemmas.exts_lemmas(F, rep)
     lemmas.lmer_lemmas(F, rep, which={"rc"})
-    dt.slice_view_tables(F, rep)
+    dt_seq.slice_view_tables(F, rep, "C12.4")
     structural.dnastring_rc(F, rep)
